@@ -82,7 +82,7 @@ def run(c):
     traces += nproc
     # (4) steady state: threads repeating their own operations concurrently (shared scratch / cached schedules)
     hot_total = 0
-    hot_runs = [(16, 400), (4, 1500), (48, 150)] * (4 if c.thorough else 1)
+    hot_runs = [(16, 400), (4, 1500), (48, 150), (1, 40)] * (4 if c.thorough else 1)   # (threads, iterations); 1 thread = pure alternation
     for ri, (t, iters) in enumerate(hot_runs):
         rc, outp = vlib.run_harness_rc(binary, ["c18-hot", "--threads", str(t), "--iters", str(iters), "--seed", str(c.seed + ri)], out=trace)
         if rc != 0:
